@@ -19,7 +19,8 @@
 // RT:  1 = myCodec.Unmarshal and proto.Unmarshal of the output both give back a
 //      message Equal to the original once unknown fields are discarded, and its
 //      unknown fields are <first 6 bytes of the output> ++ original unknown fields;
-//      0 = not; 2 = not applicable.
+//      3 = same, but myCodec.Unmarshal delivered the original unknown fields only
+//      (it stripped the checksum field); 0 = neither; 2 = not applicable.
 // FS:  number of wire-format tokens protowire sees in the output and an
 //      order-sensitive digest of them (-1: output is not well-formed protobuf).
 // D:   1 = the codec exactly as main() constructs it,
@@ -52,6 +53,7 @@ import (
 	"google.golang.org/protobuf/encoding/protowire"
 	protoV2 "google.golang.org/protobuf/proto"
 	"google.golang.org/protobuf/reflect/protoreflect"
+	"google.golang.org/protobuf/reflect/protoregistry"
 	"google.golang.org/protobuf/types/descriptorpb"
 	"google.golang.org/protobuf/types/known/anypb"
 	"google.golang.org/protobuf/types/known/apipb"
@@ -394,9 +396,19 @@ func (q *gen) fieldNumber(md protoreflect.MessageDescriptor) protowire.Number {
 		default:
 			num = 1 + q.g.intn((1<<29)-1)
 		}
-		if md == nil || md.Fields().ByNumber(protowire.Number(num)) == nil {
+		if md == nil {
 			return protowire.Number(num)
 		}
+		// not a declared field and not a registered extension of the type (the
+		// module links google.api.field_behavior = 1052 etc., which extend
+		// descriptor options): such bytes would not be *unknown* fields
+		if md.Fields().ByNumber(protowire.Number(num)) != nil {
+			continue
+		}
+		if _, err := protoregistry.GlobalTypes.FindExtensionByNumber(md.FullName(), protowire.Number(num)); err == nil {
+			continue
+		}
+		return protowire.Number(num)
 	}
 }
 
@@ -471,12 +483,22 @@ func digestStep(h uint64, num protowire.Number, wt uint64, x uint64) uint64 {
 	return (h*1000003 + uint64(num)*8 + wt + x) % 2147483647
 }
 
-// flat token sequence of b as a conforming parser reads it; n = -1 if malformed
+// flat token sequence of b as a conforming parser reads it; n = -1 if malformed.
+// protowire itself accepts field numbers up to 2^31-1; the wire-format
+// specification (and the model) stop at 2^29-1: tokensBigNum is set when that
+// was the reason for rejecting.
+var tokensBigNum bool
+
 func tokens(b []byte) (n int, h uint64) {
 	var stack []protowire.Number
+	tokensBigNum = false
 	for len(b) > 0 {
 		num, typ, k := protowire.ConsumeTag(b)
-		if k < 0 || num > maxFieldNumber {
+		if k >= 0 && num > maxFieldNumber {
+			tokensBigNum = true
+			return -1, 0
+		}
+		if k < 0 {
 			return -1, 0
 		}
 		b = b[k:]
@@ -532,8 +554,8 @@ func tokens(b []byte) (n int, h uint64) {
 // the same question asked of protowire.ConsumeField (which handles groups itself)
 func wellFormed(b []byte) bool {
 	for len(b) > 0 {
-		num, _, k := protowire.ConsumeField(b)
-		if k < 0 || num > maxFieldNumber {
+		_, _, k := protowire.ConsumeField(b)
+		if k < 0 {
 			return false
 		}
 		b = b[k:]
@@ -602,16 +624,22 @@ type runner struct {
 	st *stats
 }
 
-// decode `out` both ways and compare with the original.  (No proto.Clone here:
-// Clone/Merge of protobuf-go 1.30 drops a proto3 double field holding -0.0.)
-func roundTrip(mc *myCodec, orig protoV2.Message, out []byte) bool {
+// decode `out` both ways and compare with the original: 1 = both myCodec.Unmarshal
+// and proto.Unmarshal give a message whose known fields Equal the original's and
+// whose unknown fields are <first 6 bytes of out> ++ original unknown fields;
+// 3 = same, except that myCodec.Unmarshal delivered exactly the original unknown
+// fields (a codec that strips the checksum field); 0 = anything else.
+// (No proto.Clone here: Clone/Merge of protobuf-go 1.30 drops a proto3 double
+// field holding -0.0.)
+func roundTrip(mc *myCodec, orig protoV2.Message, out []byte) int {
 	if len(out) < 6 {
-		return false
+		return 0
 	}
 	origUnknown := append([]byte(nil), orig.ProtoReflect().GetUnknown()...)
 	wantUnknown := append(append([]byte(nil), out[:6]...), origUnknown...)
 	orig.ProtoReflect().SetUnknown(nil)
 	defer orig.ProtoReflect().SetUnknown(origUnknown)
+	res := 1
 	for pass := 0; pass < 2; pass++ {
 		fresh := orig.ProtoReflect().New().Interface()
 		var err error
@@ -621,17 +649,22 @@ func roundTrip(mc *myCodec, orig protoV2.Message, out []byte) bool {
 			err = protoV2.UnmarshalOptions{AllowPartial: true}.Unmarshal(out, fresh)
 		}
 		if err != nil {
-			return false
+			return 0
 		}
-		if !bytes.Equal(fresh.ProtoReflect().GetUnknown(), wantUnknown) {
-			return false
+		got := fresh.ProtoReflect().GetUnknown()
+		if !bytes.Equal(got, wantUnknown) {
+			if pass == 0 && bytes.Equal(got, origUnknown) {
+				res = 3
+			} else {
+				return 0
+			}
 		}
 		fresh.ProtoReflect().SetUnknown(nil)
 		if !protoV2.Equal(orig, fresh) {
-			return false
+			return 0
 		}
 	}
-	return true
+	return res
 }
 
 // run v through myCodec over `inner`; msg != nil enables the round-trip and direct
@@ -674,14 +707,17 @@ func (r *runner) exec(inner encoding.Codec, v interface{}, msg protoV2.Message) 
 			}
 		}
 		if err == nil && rec.err == nil {
-			rt = b2i(roundTrip(mc, msg, out))
+			rt = roundTrip(mc, msg, out)
 		}
 	}
 	fsN, fsH := -1, uint64(0)
 	if err == nil {
 		fsN, fsH = tokens(out)
-		if (fsN >= 0) != wellFormed(out) {
-			fsN = -2
+		if (fsN >= 0) != wellFormed(out) && !tokensBigNum {
+			fsN = -2 // the two readings of protowire disagree: must not happen
+		}
+		if tokensBigNum {
+			r.st.outcomes["field-number-above-2^29-1"]++
 		}
 	}
 	r.st.sizes[sizeClass(len(rec.b))]++
@@ -693,7 +729,7 @@ func (r *runner) exec(inner encoding.Codec, v interface{}, msg protoV2.Message) 
 			r.st.outcomes["ok-output-not-wellformed-protobuf"]++
 		}
 	}
-	if rt == 1 {
+	if rt == 1 || rt == 3 {
 		r.st.outcomes["roundtrip-checked"]++
 	}
 	if d == 3 {
@@ -784,9 +820,9 @@ func (r *runner) randomMessage(g *rng, budget int) {
 	}
 	msg := t.mk()
 	q := &gen{g: g, budget: budget}
-	switch g.intn(12) {
+	switch g.intn(25) {
 	case 0: // empty message
-	case 1: // only unknown fields
+	case 1, 2: // only unknown fields
 		msg.ProtoReflect().SetUnknown(q.unknown(msg.ProtoReflect().Descriptor()))
 		q.hasUnk = true
 	default:
